@@ -54,7 +54,7 @@ def uvl_value(v):
     raise ValueError(v)
 
 
-def uvl_expr(t, nm, ch, top=False):
+def uvl_expr(t, nm, ch, top=False, bare=False):
     op = t['op']
     if op == 'VAR':
         s = uvl_id(nm.conc(t['v']), ch['quote'])
@@ -69,9 +69,12 @@ def uvl_expr(t, nm, ch, top=False):
         args = [uvl_id(nm.conc(x['v']), ch['quote']) for x in (t['l'], t['r']) if x['op'] != 'NIL']
         s = '%s(%s)' % (UVL_AGG[op], ', '.join(args))
     else:
-        s = '%s %s %s' % (uvl_expr(t['l'], nm, ch), UVL_OPS[op], uvl_expr(t['r'], nm, ch))
-        # sub-expressions are always parenthesised, so nothing depends on precedence
-        return s if (top and not ch['parens']) else '(%s)' % s
+        # a left-nested chain of ONE logical operator may be written without inner parentheses (choice `flat`): the
+        # grammar's binary alternatives are left-recursive, hence left-associative, so `a => b => c` denotes `(a => b) => c`
+        flat = bool(ch.get('flat')) and op in ('AND', 'OR', 'IMPLIES', 'EQUIVALENCE') and t['l']['op'] == op
+        s = '%s %s %s' % (uvl_expr(t['l'], nm, ch, bare=flat), UVL_OPS[op], uvl_expr(t['r'], nm, ch))
+        # every other sub-expression is parenthesised, so nothing depends on precedence
+        return s if (bare or (top and not ch['parens'])) else '(%s)' % s
     return '(%s)' % s if (ch['parens'] and op == 'VAR' and not top) else s
 
 
@@ -342,7 +345,7 @@ def emit_fama(m, nm, ch):
         t = c['ast']
         tag = 'requires' if t['op'] == 'REQUIRES' else 'excludes'
         a, b = nm.conc(t['l']['v']), nm.conc(t['r']['v'])
-        attrs = [('name', c['name']), ('feature', a), (tag, b)]
+        attrs = [('name', nm.conc_ctc(c['name'])), ('feature', a), (tag, b)]
         if ch['order']:
             attrs.reverse()
         out.append('<%s%s/>' % (tag, ''.join(' %s=%s' % (k, quoteattr(v)) for k, v in attrs)))
@@ -477,7 +480,7 @@ def emit_glencoe(m, nm, ch):
         ops = [term(t['l'])] + ([term(t['r'])] if t['r']['op'] != 'NIL' else [])
         return {'type': GL_OPS[t['op']], 'operands': ops}
     doc = {'id': 'FM_ref', 'name': 'FM_ref', 'features': feats, 'tree': tree(m['root']),
-           'constraints': {c['name']: term(c['ast']) for c in m['ctcs']}}
+           'constraints': {nm.conc_ctc(c['name']): term(c['ast']) for c in m['ctcs']}}
     if ch['extras']:
         doc['meta'] = {'tool': 'ref'}
     if ch['order']:
